@@ -198,6 +198,37 @@ def correspond(ctx, scale):
         failures.append({'key': f'coq-eval:{name}', 'what': 'case file did not evaluate: ' + out, 'case': {'file': name}})
     for i in bad:
         failures.append({'key': f'model-degenerate-scalar:{i}', 'what': 'a degenerate scalar kernel evaluates to an unexpected value in the model', 'case': dict(i=i)})
+    # all-pairs sweep over per-call options and ambient contexts (vlib/callzoo.py) on adversarial inputs: outputs, losses and the state stay finite
+    # (an all-padding call has no valid token to average a loss over: its loss is exempt, its outputs and the state are not)
+    from vlib import callzoo
+    from vector_quantize_pytorch import VectorQuantize, ResidualVQ
+    cz_cfgs = [('vq-rotation', lambda: VectorQuantize(dim=4, codebook_size=6, threshold_ema_dead_code=2), 4, 1, None),
+               ('vq-cosine-heads', lambda: VectorQuantize(dim=4, codebook_size=6, heads=2, codebook_dim=2, use_cosine_sim=True), 4, 2, None),
+               ('vq-stochastic-st', lambda: VectorQuantize(dim=3, codebook_size=6, stochastic_sample_codes=True, straight_through=True, rotation_trick=False, sample_codebook_temp=0.1), 3, 1, None),
+               ('vq-ce-diversity', lambda: VectorQuantize(dim=3, codebook_size=6, commitment_use_cross_entropy_loss=True, codebook_diversity_loss_weight=1.0), 3, 1, None),
+               ('rvq-kmeans', lambda: ResidualVQ(dim=3, num_quantizers=2, codebook_size=6, kmeans_init=True, kmeans_iters=2, threshold_ema_dead_code=1), 3, 1, 2)]
+    for cname, cmk, cdim, cheads, cnq in cz_cfgs:
+        for vi, v in enumerate(callzoo.variants()):
+            mod = cmk()
+            for train in (True, False):
+                mod.train(train)
+                x, kw_c, cm, valid = callzoo.build_call(v, torch, cdim, heads=cheads, K=6, nq=cnq)
+                with torch.no_grad():
+                    x.mul_([0.0, 1e-30, 1.0, 1e4][vi % 4])
+                try:
+                    with cm():
+                        ret = mod(x, **kw_c)
+                except Exception:
+                    continue
+                ev += 1
+                dist['call_option_sweep'] = dist.get('call_option_sweep', 0) + 1
+                all_pad = valid is not None and not bool(valid.any())
+                outs = [(f'output/{i}', r) for i, r in enumerate(ret if isinstance(ret, tuple) else (ret,)) if isinstance(r, torch.Tensor) and not (all_pad and i >= 2)]
+                badk = [nm for nm, r in outs if r.dtype.is_floating_point and not bool(torch.isfinite(r).all())]
+                badk += ['state/' + k for k, t in mod.state_dict().items() if t.dtype.is_floating_point and not bool(torch.isfinite(t).all())]
+                if badk:
+                    failures.append({'key': f'{cname}:call-options:non-finite:{badk[0].split("/")[0]}', 'what': f'{cname} train={train} {callzoo.label(v)} (input scale {[0.0, 1e-30, 1.0, 1e4][vi % 4]}): non-finite values in {badk[:4]}',
+                                     'case': dict(module=cname, variant=v, train=train)})
     return {'evaluations': ev, 'distinct_nontrivial': nt,
             'rule': '12 adversarial input families (zeros, 1e-30, 1e-12, 1e4, constants, one-hot, identical rows, mixed scales 1e-20..1e4, rows equal / antipodal to codes, single token) x 28 module configurations (cosine normalisation, rotation trick, k-means with empty clusters, '
                     'expiry, dead codes with decay 0, extreme LFQ temperature, FSQ saturation, stochastic sampling, learnable + orthogonal) x multi-step train / eval histories: isfinite over outputs, losses, input gradients and state_dict; non-trivial = degenerate family',
